@@ -44,7 +44,7 @@ def run(ctx):
     for L in range(0, 4):
         for combo in itertools.product(kinds, repeat=L):
             for res, ft in ((0, 1 + n % 11), (rnd.choice([1, 2, 14]), 3)):
-                w = World(rnd)
+                w = World(rnd, ts='any')
                 g = gen.ProgGen(w, rnd)
                 inner = []
                 for j, c in enumerate(combo):
@@ -65,7 +65,7 @@ def run(ctx):
         perms = list(itertools.permutations(pool, L))
         rnd.shuffle(perms)
         for perm in perms[:40 if ctx.quick else 400]:
-            w = World(rnd)
+            w = World(rnd, ts='any')
             g = gen.ProgGen(w, rnd)
             inner = []
             for rk, iid, sh in perm:
@@ -83,7 +83,7 @@ def run(ctx):
         for has_thd, has_hdr in itertools.product([False, True], repeat=2):
             for ndata in (0, 1, 2, 3):
                 for nfr in ([0, 1, 4, 5, 8, 13] if ctx.quick else range(0, 14)):
-                    w = World(rnd)
+                    w = World(rnd, ts='any')
                     g = gen.ProgGen(w, rnd)
                     inner = []
                     if has_hdr:
@@ -107,7 +107,7 @@ def run(ctx):
                     n += 1
     # ---- random composites interleaved over threads
     for i in range(150 if ctx.quick else 4000):
-        w = World(rnd)
+        w = World(rnd, ts='any')
         g = gen.ProgGen(w, rnd, ntids=2, noise=0.05)
         progs = [[e for _ in range(rnd.randrange(1, 3)) for e in g.composite(t)] for t in (1, 2)]
         cases.append(('rnd%d' % i, w, gen.interleave(rnd, progs)))
